@@ -78,7 +78,8 @@ where
         // 0. capacity.
         {
             let any_vec_raw = unsafe{any_vec_ptr.any_vec_raw_mut()};
-            any_vec_raw.reserve(new_len);
+            // `reserve` is relative to the current len, which is `start` here.
+            any_vec_raw.reserve(new_len - self.start);
         }
 
         // 1. drop elements.
